@@ -94,7 +94,8 @@ Fixpoint flat_values (fuel : nat) (v : value) : list value :=
   | S f =>
       match v with
       | VList l | VTuple l => flat_map (flat_values f) l ++ [v]
-      | VDict l => flat_map (fun kv => flat_values f (snd kv)) l ++ [v]
+      (* repaired code: keys are visited too (they are evaluated when the value is used) *)
+      | VDict l => flat_map (fun kv => flat_values f (fst kv)) l ++ flat_map (fun kv => flat_values f (snd kv)) l ++ [v]
       | _ => [v]
       end
   end.
